@@ -52,6 +52,7 @@ import (
 	"k8s.io/apimachinery/pkg/runtime"
 	"k8s.io/apimachinery/pkg/util/intstr"
 	"k8s.io/client-go/kubernetes/scheme"
+	"k8s.io/component-base/featuregate"
 	"k8s.io/klog/v2"
 	kubeqos "k8s.io/kubectl/pkg/util/qos"
 	"sigs.k8s.io/controller-runtime/pkg/client"
@@ -871,9 +872,25 @@ func c13Admit(ctx context.Context, h *PodMutatingHandler, raw []byte) (out []byt
 
 var c13GatesRecorded bool
 
+// c13SetGate sets one feature gate for the current case and returns the function that restores
+// the previous setting. Cases of one process run one after the other, so two settings never coexist.
+func c13SetGate(c *kit.Case, f featuregate.Feature, on bool) func() {
+	prev := utilfeature.DefaultFeatureGate.Enabled(f)
+	if err := utilfeature.DefaultMutableFeatureGate.Set(fmt.Sprintf("%s=%t", f, on)); err != nil {
+		c.Harness("cannot set feature gate %s=%t: %v", f, on, err)
+	}
+	return func() { _ = utilfeature.DefaultMutableFeatureGate.Set(fmt.Sprintf("%s=%t", f, prev)) }
+}
+
 func TestVerifC13Mutating(t *testing.T) {
-	// feature gates stay at their defaults; set explicitly so that nothing inherited matters, and
-	// record them in the evidence
+	// The process starts from the default gates (set explicitly so that nothing inherited matters;
+	// recorded in the evidence). Three gates that the mutating path reads are then a per-case
+	// dimension, set before the first admission and restored after the case:
+	// ColocationProfileSkipMutatingResources (documented: no resource translation at all -> the
+	// oracle only demands "untouched, or a complete translation"), DisableExtendedResourceSpec
+	// (documented: the summary annotation is not maintained -> the annotation oracle is only
+	// counted), DisableDeviceResourceSpec (another mutator of the same chain). Idempotence and
+	// re-validation are asserted under every setting.
 	gateNames := []string{string(features.ColocationProfileSkipMutatingResources), string(features.DisableExtendedResourceSpec), string(features.MultiQuotaTree),
 		string(features.DisableDeviceResourceSpec), string(features.ColocationProfileSkipValidatingPriority)}
 	gates := map[string]bool{}
@@ -898,18 +915,19 @@ func TestVerifC13Mutating(t *testing.T) {
 	vh := &validating.PodValidatingHandler{Client: fake.NewClientBuilder().WithScheme(scheme.Scheme).Build(), Decoder: decoder}
 
 	kit.Run(t, kit.Config{Property: "C13", Unit: "mutating", Quick: 5000, Thorough: 400000,
-		Rule: "one pod + profile set per case: QoS label in {absent, LSE, LSR, LS, BE, SYSTEM, junk}, spec.priority nil / class edges +-1 / mid and batch ranges / gaps / extremes, priority-class label (known or junk), 0-3 containers and 0-2 init containers (sidecars) with native and directly written tier quantities from a boundary pool (1m, 0.0005, 500u, 1n, 1.5, 1e3, 1Gi, 1G, 2Ei, ...), request only / both / limit without request, overhead, stale or broken summary annotation; 0-3 matching + 0-2 non-matching ClusterColocationProfiles (pod and namespace selectors; QoS class, PriorityClass at every class edge, priority-class / QoS labels, label-key mapping, strategic-merge patch, probability 0/100, skip-update-resources) applied in name order. distinct = (final QoS, final class, tier source, #matched, translation outcome, shape of the resources (native / tier / limit-only / overhead / init), annotation state); non-trivial = a pod that is translated and has a native cpu or memory entry, or that already carries tier entries",
+		Rule: "one pod + profile set per case: QoS label in {absent, LSE, LSR, LS, BE, SYSTEM, junk}, spec.priority nil / class edges +-1 / mid and batch ranges / gaps / extremes, priority-class label (known or junk), 0-3 containers and 0-2 init containers (sidecars) with native and directly written tier quantities from a boundary pool (1m, 0.0005, 500u, 1n, 1.5, 1e3, 1Gi, 1G, 2Ei, ...), request only / both / limit without request, overhead, stale or broken summary annotation; 0-3 matching + 0-2 non-matching ClusterColocationProfiles (pod and namespace selectors; QoS class, PriorityClass at every class edge, priority-class / QoS labels, label-key mapping, strategic-merge patch, probability 0/100, skip-update-resources) applied in name order; the feature gates ColocationProfileSkipMutatingResources, DisableExtendedResourceSpec and DisableDeviceResourceSpec are each switched on in 8% of the cases and restored. distinct = (final QoS, final class, tier source, #matched, translation outcome, shape of the resources (native / tier / limit-only / overhead / init), annotation state); non-trivial = a pod that is translated and has a native cpu or memory entry, or that already carries tier entries",
 	}, func(c *kit.Case) {
 		r := c.R
 		if !c13GatesRecorded {
 			c13GatesRecorded = true
-			c.Sample(map[string]any{"feature_gates": gates})
+			c.Sample(map[string]any{"feature_gates_at_start": gates, "feature_gates_varied_per_case": []string{string(features.ColocationProfileSkipMutatingResources),
+				string(features.DisableExtendedResourceSpec), string(features.DisableDeviceResourceSpec)}})
 			for g, on := range gates {
 				n := 0
 				if on {
 					n = 1
 				}
-				c.Count("m_gate_on_"+g, n)
+				c.Count("m_gate_on_at_start_"+g, n)
 			}
 		}
 		pod0 := c13GenPod(r)
@@ -941,6 +959,21 @@ func TestVerifC13Mutating(t *testing.T) {
 			c.Op("profile=%s", c13JSON(p))
 		}
 		c.Op("matched=%v skip-update-resources=%v", matched, skipRes)
+		// gate setting of this case (drawn after the objects, so the objects do not depend on it)
+		skipMutGate, noAnnoGate, noDevGate := r.Pct(8), r.Pct(8), r.Pct(8)
+		defer c13SetGate(c, features.ColocationProfileSkipMutatingResources, skipMutGate)()
+		defer c13SetGate(c, features.DisableExtendedResourceSpec, noAnnoGate)()
+		defer c13SetGate(c, features.DisableDeviceResourceSpec, noDevGate)()
+		c.Op("gates: ColocationProfileSkipMutatingResources=%t DisableExtendedResourceSpec=%t DisableDeviceResourceSpec=%t", skipMutGate, noAnnoGate, noDevGate)
+		if skipMutGate {
+			c.Count("m_cases_gate_ColocationProfileSkipMutatingResources_on", 1)
+		}
+		if noAnnoGate {
+			c.Count("m_cases_gate_DisableExtendedResourceSpec_on", 1)
+		}
+		if noDevGate {
+			c.Count("m_cases_gate_DisableDeviceResourceSpec_on", 1)
+		}
 
 		raw1, pod1, resp, err := c13Admit(ctx, h, raw0)
 		if err != nil {
@@ -985,7 +1018,7 @@ func TestVerifC13Mutating(t *testing.T) {
 		default:
 			source = "default-of-kubernetes-qos"
 		}
-		expect := tier != "" && len(matched) > 0 && !skipRes
+		expect := tier != "" && len(matched) > 0 && !skipRes && !skipMutGate
 		stats := map[string]int{}
 		identity := c13SameResources(pod0, pod1)
 		hadNative := c13HasNative(pod0)
@@ -1010,7 +1043,9 @@ func TestVerifC13Mutating(t *testing.T) {
 			outcome = "untouched"
 			c.Count("m_untouched_"+source, 1)
 			if tier != "" && hadNative {
-				if skipRes {
+				if skipMutGate {
+					c.Count("m_untouched_tier_pod_gate_skip_mutating_resources", 1)
+				} else if skipRes {
 					c.Count("m_untouched_tier_pod_skip_update_resources", 1)
 				} else {
 					c.Count("m_untouched_tier_pod_no_profile_matched", 1)
@@ -1046,7 +1081,14 @@ func TestVerifC13Mutating(t *testing.T) {
 		if _, ok := pod1.Annotations[c13AnnoKey]; ok {
 			annoState = "present"
 		}
-		if f := c13CheckAnnotation(pod1); f != nil {
+		if noAnnoGate {
+			// the feature that maintains the annotation is switched off: nothing to demand
+			if f := c13CheckAnnotation(pod1); f != nil {
+				c.Count("m_annotation_gate_disabled_mismatch", 1)
+			} else {
+				c.Count("m_annotation_gate_disabled_match", 1)
+			}
+		} else if f := c13CheckAnnotation(pod1); f != nil {
 			if translatedTier != "" {
 				c.Fail("C13/annotation/"+f.kind, "summary annotation does not match the final spec of the translated pod (tier %s): %s\npod=%s\nmutated=%s", translatedTier, f.detail, raw0, raw1)
 			}
